@@ -155,15 +155,31 @@ INTERP_NOTE = ('the interpreter is a small-step abstract machine in TLA+ (Interp
                'after every completed statement (hook rrss_verif); non-trivial = more than one statement event')
 
 
+def interptrace(run):
+    """impl -> spec: seeded random programs (20-120 statements, depth 4, functions, arrays, I/O) run on the real interpreter;
+    TLC steps the abstract machine through each recorded run (InterpTrace.tla), snapshot by snapshot."""
+    if run.tier == 'quick':
+        record_validate(run, 'interptrace', 'interp', 'InterpTrace.tla', 'InterpTrace.cfg', n=600, maxlen=100, xss='256m', parts=6)
+    else:
+        record_validate(run, 'interptrace', 'interp', 'InterpTrace.tla', 'InterpTrace.cfg', n=9000, maxlen=160, xss='256m', parts=12, timeout=5000)
+
+
+TRACE_NOTE = ('; recorded runs of seeded random programs far beyond the enumerated bounds are validated by TLC against the same machine '
+              '(InterpTrace.tla: one machine action per TLC state, every emitted snapshot must be the recorded one)')
+
+
 def C04(run):
-    run.rule = 'family CF (nested if/else, while, until, break, continue, conditions of every kind, top-level exits); ' + INTERP_NOTE
+    run.rule = 'family CF (nested if/else, while, until, break, continue, conditions of every kind, top-level exits); ' + INTERP_NOTE + TRACE_NOTE
     interp(run, 'CF')
+    interptrace(run)
 
 
 def C05(run):
     run.rule = 'family FN (18 function bodies x 14 call sites + two-parameter, recursive, nested and clashing definitions); ' + INTERP_NOTE
+    run.rule += TRACE_NOTE
     interp(run, 'FN')
     interp(run, 'CF') if run.tier == 'thorough' else None
+    interptrace(run)
 
 
 def C08(run):
@@ -184,6 +200,7 @@ def C09(run):
     grammar(run, 'e2e', family='e2e', profiles=('debug', 'release'))
     tlc_replay(run, 'table-C06', 'MC_Table.tla', 'MC_Table_C06_%s.cfg' % run.tier, 'table', profiles=('debug', 'release'))
     tlc_replay(run, 'table-C07', 'MC_Table.tla', 'MC_Table_C07_%s.cfg' % run.tier, 'table', profiles=('debug', 'release'))
+    interptrace(run)
 
 
 def C10(run):
